@@ -262,6 +262,7 @@ def main(argv=None):
     ]
     from harness import stamina
     stamina.probe(common.import_eon(), chk)
+    stamina.long_history(common.import_eon(), chk, nops=40000 if chk.tier == "quick" else 400000, seed=chk.seed)
     return chk.finish(RULE, exhaustive=True)
 
 
